@@ -9,8 +9,12 @@ Open Scope Z_scope.
 Definition prop_validate_body (inp obs : list Z) : Z :=
   let '(g, op, old, new) := dec_validate inp in
   match obs with
-  | a :: _ => validate_code op old new (zb a)
-  | [] => 20
+  | a :: _ :: h :: _ =>
+      (* the verdict of the colocation validator, then the verdict the API server sees *)
+      let c := validate_code op old new (zb a) in
+      if negb (c =? 0) then c
+      else if h =? 2 then 0 else validate_code op old new (zb h)
+  | _ => 20
   end.
 Definition prop_validate (inp obs : list Z) : Z :=
   match untag TAG_VALIDATE inp with Some body => prop_validate_body body obs | None => 0 end.
@@ -31,31 +35,48 @@ Definition identity_enc (p : pod) : list Z :=
 (* 0 holds; 20 malformed observable; 21/22 a mutator changed the pod but reported "not
    mutated" (the patch would be dropped); 11 amounts/erasure/frame; 13 annotation;
    14 re-admission as Update changes something; 15 re-admission as Create changes something
-   although the profiles leave the pod's identity and the translation switch alone *)
-Definition prop_mutate_body (inp obs : list Z) : Z :=
-  let '(e, ps, p) := dec_mutate inp in
-  let '(b1, r1) := take_list obs in
-  match b1 with
+   although the profiles leave the pod's identity, the summary annotation and the translation
+   switch alone;
+   16 re-admission as Update through the handler changes something.
+   Clauses 11/13 are judged twice: on the pod left by the two mutators of the property and on
+   the pod the API server ends up with after PodMutatingHandler.Handle (patch applied). *)
+Definition judge_create (e : env) (ps : list profile) (p : pod) (b : list Z) : Z :=
+  match b with
   | 1 :: _ => 0
   | 0 :: l1 :: l2 :: penc =>
       if zb l1 then 21 else if zb l2 then 22 else
       let '(po, _) := dec_obs_pod penc in
-      let code := mutate_code KEYS (translating e ps p) (e_gate_noext e) p po in
-      if negb (code =? 0) then code else
-      let '(b2, r2) := take_list r1 in
-      let '(b3, _) := take_list r2 in
+      mutate_code KEYS (translating e ps p) (e_gate_noext e) p po
+  | _ => 20
+  end.
+Definition prop_mutate_body (inp obs : list Z) : Z :=
+  let '(e, ps, p) := dec_mutate inp in
+  let '(b1, r1) := take_list obs in
+  let '(bh, rh) := take_list r1 in
+  let c1 := judge_create e ps p b1 in
+  if negb (c1 =? 0) then c1 else
+  let ch := judge_create e ps p bh in
+  if negb (ch =? 0) then ch else
+  match b1 with
+  | 0 :: _ :: _ :: penc =>
+      let '(po, _) := dec_obs_pod penc in
+      let '(b2, r2) := take_list rh in
+      let '(b3, r3) := take_list r2 in
+      let '(bu, _) := take_list r3 in
       if negb (eq_listZ b2 b1) then 14 else
+      if negb (eq_listZ bu bh) then 16 else
       match b3 with
       | 0 :: l1' :: l2' :: penc3 =>
           let '(po3, _) := dec_obs_pod penc3 in
           if eq_listZ (identity_enc po3) (identity_enc po)
              && Bool.eqb (translating e ps po) (translating e ps p)
+             && negb (touches_summary e ps po)
           then (if eq_listZ b3 b1 then 0 else 15)
           else 0
       | 1 :: _ => 0
       | _ => 20
       end
-  | _ => 20
+  | _ => 0
   end.
 
 Definition prop_mutate (inp obs : list Z) : Z :=
